@@ -460,9 +460,9 @@ class ObjectDomain(LazyGenerators, EffectDomain):
             obj = fr.instance
         elif isinstance(target.value, ast.Name) and st.has(fr.local(target.value.id)):
             obj = unbox(st.get(fr.local(target.value.id)), st)
-        elif isinstance(target.value, ast.Attribute) and not any(isinstance(n_, ast.Call) for n_ in ast.walk(target.value)):
+        elif isinstance(target.value, (ast.Attribute, ast.Subscript)) and not any(isinstance(n_, ast.Call) for n_ in ast.walk(target.value)):
             got = interp.eval(target.value, st, fr)
-            obj = got[0].value if len(got) == 1 and got[0].kind == "val" else None
+            obj = unbox(got[0].value, got[0].state) if len(got) == 1 and got[0].kind == "val" else None
         else:
             return None
         if not is_inst(obj):
@@ -575,6 +575,29 @@ class ObjectDomain(LazyGenerators, EffectDomain):
             return [val(("listappend", heap_key(value)), st)]   # <a list some object keeps>.append taken as a value: bound to that very list
         if isinstance(value, tuple) and value[:1] == ("const",) and isinstance(value[1], (str, bytes)) and (attr in self.PURE_STR_METHODS or attr in ("format", "join")):
             return [val(("partial", ("strmethod", attr), (value,), ()), st)]   # "text".method taken as a value: bound to that text
+        if isinstance(value, tuple) and value[:1] == ("func",) and isinstance(value[1], FUNC_TYPES):
+            # what a function object says about itself (as far as code inspects it: names, documentation, parameter names)
+            node = value[1]
+            if attr == "__name__":
+                return [val(("const", node.name), st)]
+            if attr == "__qualname__":
+                owner = getattr(node, "_class", None)
+                return [val(("const", (owner.name + "." if owner is not None else "") + node.name), st)]
+            if attr == "__doc__":
+                doc = ast.get_docstring(node, clean=False)
+                return [val(("const", doc) if doc is not None else NONE, st)]
+            if attr == "__code__":
+                return [val(("codeobj", node), st)]
+        if isinstance(value, tuple) and value[:1] == ("codeobj",):
+            node = value[1]
+            if attr == "co_varnames":
+                a_ = node.args
+                params = [p.arg for p in a_.posonlyargs + a_.args + a_.kwonlyargs] + ([a_.vararg.arg] if a_.vararg else []) + ([a_.kwarg.arg] if a_.kwarg else [])
+                return [val(("tuple",) + tuple(("const", n_) for n_ in params + [n_ for n_ in sorted(own_names(node)) if n_ not in params]), st)]
+            if attr == "co_name":
+                return [val(("const", node.name), st)]
+            if attr == "co_argcount":
+                return [val(("const", len(node.args.posonlyargs + node.args.args)), st)]
         if attr == "__dict__" and (is_inst(value) or value == ("self",)):
             prefix = f"inst.{value[1]}." if is_inst(value) else "self."
             items = sorted((k[len(prefix):], v) for k, v in st.items if k.startswith(prefix) and "." not in k[len(prefix):] and not (k[len(prefix):].startswith("__") and k[len(prefix):].endswith("__")))
